@@ -1,5 +1,5 @@
 CONSTANTS MaxTracks = 2  MaxEv = 2  MaxMap = 4
 INIT Init
 NEXT Next
-INVARIANTS StepIsClosedForm AcceptsOwn RejectsMutants Restriction SelectionLaw OnceEach LookupIsC11 LookupLaws ClosedSticks EmptyMeans FormatLaw
+INVARIANTS StepIsClosedForm AcceptsOwn RejectsMutants Restriction SelectionLaw OnceEach LookupIsC11 LookupLaws ClosedSticks EmptyMeans
 CHECK_DEADLOCK FALSE
